@@ -759,6 +759,11 @@ func RunC09(c *core.Ctx) int {
 					lv string
 				}{fi, core.Pick(r, faults[fi].Levels)})
 			}
+			// two injections at the same configuration node may overwrite each other's key (an
+			// unknown template replaced by a valid one): such a pair is not two invalidities
+			if sp.faults[0].lv != "" && sp.faults[0].lv == sp.faults[1].lv {
+				continue
+			}
 			specs = append(specs, sp)
 		}
 	}
